@@ -2,8 +2,10 @@ package fsm
 
 import (
 	"bytes"
+	"context"
 
 	"github.com/canopy-network/canopy/lib"
+	"github.com/canopy-network/canopy/lib/crypto"
 	"google.golang.org/protobuf/types/known/anypb"
 )
 
@@ -55,4 +57,98 @@ func ZZ_C05_A1_rlp_wrapper_binds_claimed_key() {
 	zzAssert("A1.rlp.payload", tx.MessageType == d.MessageType && bytes.Equal(tx.Msg.Value, d.Msg.Value))
 	zzAssert("A1.rlp.envelope", tx.CreatedHeight == d.CreatedHeight && tx.Time == d.Time && tx.Fee == d.Fee &&
 		tx.NetworkId == d.NetworkId && tx.ChainId == d.ChainId && tx.Nonce == d.Nonce)
+}
+
+// C05 / A1 for ordinary transactions: the signer gate StateMachine.CheckSignature under an ideal
+// signature functionality. The owner of the claimed key signed at most ONE message: either exactly
+// this transaction's sign bytes, or the sign bytes of some other transaction, or nothing. Whatever
+// the fields, the memo ("", "RLP", "RLP.V2"), the signature bytes and the list of authorized signers:
+//   accepted  =>  the key's owner signed exactly THIS transaction's content, the returned address is
+//                 the claimed key's address, and that address is one of the authorized signers.
+// With a batch verifier the same must hold for what is queued: exactly (key, sign bytes, signature).
+func zzSignerGate(batch bool) {
+	sm, _ := zzFSM(10)
+	tx := zzAnyTx("tx", zzBytesUpTo("sig", 1))
+	switch zzConcrete(zzInt("memo"), 0, 2) {
+	case 0:
+		tx.Memo = ""
+	case 1:
+		tx.Memo = RLPIndicator
+	case 2:
+		tx.Memo = RLPV2Indicator
+	}
+	other := zzAnyTx("other", []byte{9})
+	other.Memo = tx.Memo
+	mine, _ := tx.GetSignBytes()
+	theirs, _ := other.GetSignBytes()
+	signedThis, signedOther := zzBool("ownerSignedThis"), zzBool("ownerSignedOther")
+	zzVerifyHook = func(pk, msg, sig []byte) bool {
+		good := len(sig) == 1 && sig[0] == 9 && bytes.Equal(pk, tx.Signature.PublicKey)
+		return zzAnd(good, zzOr(zzAnd(signedThis, bytes.Equal(msg, mine)), zzAnd(signedOther, bytes.Equal(msg, theirs))))
+	}
+	var auth [][]byte
+	na := zzConcrete(zzInt("authorized"), 0, 2)
+	for i := 0; i < na; i++ {
+		auth = append(auth, zzBytes("auth", 3))
+	}
+	zzBatchQueue = nil
+	var bv *crypto.BatchVerifier
+	if batch {
+		bv = &crypto.BatchVerifier{}
+	}
+	addr, err := sm.CheckSignature(tx, auth, bv)
+	if err != nil {
+		zzReach("A1.gate.rejected")
+		return
+	}
+	zzReach("A1.gate.accepted")
+	if batch {
+		zzAssert("A1.gate.exactly-this-triple-is-queued", len(zzBatchQueue) == 1 && bytes.Equal(zzBatchQueue[0].pk, tx.Signature.PublicKey) &&
+			bytes.Equal(zzBatchQueue[0].msg, mine) && bytes.Equal(zzBatchQueue[0].sig, tx.Signature.Signature))
+	} else {
+		zzAssert("A1.gate.owner-signed-exactly-this-content", zzOr(signedThis, zzAnd(signedOther, bytes.Equal(mine, theirs))))
+	}
+	zzAssert("A1.gate.address-is-the-claimed-keys", addr != nil && bytes.Equal(addr.Bytes(), tx.Signature.PublicKey))
+	in := false
+	for _, a := range auth {
+		in = zzOr(in, bytes.Equal(a, tx.Signature.PublicKey))
+	}
+	zzAssert("A1.gate.signer-is-authorized", in)
+}
+
+//zz:harness unwind=60 replay=model maxpaths=60000 timebudget=900
+//zz:reach A1.gate.accepted A1.gate.rejected
+func ZZ_C05_A1_signer_gate() { zzSignerGate(false) }
+
+//zz:harness unwind=60 replay=model maxpaths=60000 timebudget=900
+//zz:reach A1.gate.accepted A1.gate.rejected
+func ZZ_C05_A1_signer_gate_batch() { zzSignerGate(true) }
+
+// C05 / A2 for payments: a send transaction is executed only if it is signed by the account it
+// debits, and executing it never lowers the balance of any account other than the signer's.
+//
+//zz:harness mode=int unwind=60 maxpaths=60000 timebudget=1200 replay=model
+//zz:reach A2.send.included A2.send.not-included
+func ZZ_C05_A2_send_debits_only_the_signer() {
+	w := zzWorldValues()
+	sm, _ := zzBuildWorld(w)
+	spec := zzTxSpec{from: zzConcrete(zzInt("from"), 0, 2), to: zzConcrete(zzInt("to"), 0, 2), signer: zzConcrete(zzInt("signer"), 0, 2),
+		amount: zzN64("amount"), fee: zzN64("fee"), created: 10, time: 1, net: 1, chain: 1}
+	before := zzBalances(sm)
+	r := &lib.ApplyBlockResults{}
+	if sm.ApplyTransactions(context.Background(), [][]byte{zzSendTxBytes(spec)}, r, false) != nil {
+		return
+	}
+	after := zzBalances(sm)
+	if len(r.Results) == 1 {
+		zzReach("A2.send.included")
+		zzAssert("A2.send.executed-only-if-signed-by-the-debited-account", spec.signer == spec.from)
+	} else {
+		zzReach("A2.send.not-included")
+	}
+	for i := 0; i < 3; i++ {
+		if i != spec.signer {
+			zzAssert("A2.send.nobody-else-is-debited", after[i] >= before[i])
+		}
+	}
 }
